@@ -349,6 +349,9 @@ def corpus():
     c.append(dict(claim="read", hdr=_hdr(120.0), levels=[[], [], []], tail=[], opts=dict(cut=299)))
     # a head left open in the first difficulty is closed by a tail of the second (the buffer is shared)
     c.append(dict(claim="read", hdr=_hdr(120.0), levels=[[dict(m=1, ch=2, ev=[HD])], [dict(m=2, ch=2, ev=[TL])], []], tail=[]))
+    # every text field filled to its last byte (a field boundary moved by one byte shows here)
+    c.append(dict(claim="read", hdr=_hdr(120.0, signature="OJNx", old_genre="0123456789abcdefghij", title="T" * 63 + "z", artist="a" * 31 + "y",
+                                         creator="c" * 31 + "x", ojm_file="o" * 31 + "w"), levels=[[], [], []], tail=[]))
     c.append(dict(claim="f32", bits=0x42F00000))
     c.append(dict(claim="f32", bits=0x7FC00000))
     c.append(dict(claim="f32", bits=0x00000001))
